@@ -650,6 +650,7 @@ fn gen_anim(r: &mut Rng, n: usize, out: &mut dyn Write) {
         writeln!(out, "{}", shape_line(shape)).unwrap();
         let nstates = 2 + r.below(4) as usize; // 2..5
         let exact = i % 2 == 0;
+        if exact { writeln!(out, "# exactcfg").unwrap(); }
         let mut toks: Vec<String> = Vec::new();
         let mut tls: Vec<Option<GenTl>> = Vec::new();
         let mut next_slot = 10;
@@ -727,6 +728,47 @@ fn gen_anim(r: &mut Rng, n: usize, out: &mut dyn Write) {
     }
 }
 
+/// frame-rate independence: the same animator driven by a partition of an interval and by the whole
+/// interval at once (exact binary step sizes), interleaved with state changes
+fn gen_anim6(r: &mut Rng, n: usize, out: &mut dyn Write) {
+    for _ in 0..n {
+        writeln!(out, "reset").unwrap();
+        let shape = match r.below(10) { 0..=7 => "S8", 8 => "Q5", _ => "R4" };
+        writeln!(out, "{}", shape_line(shape)).unwrap();
+        let nstates = 2 + r.below(3) as usize;
+        let mut toks: Vec<String> = Vec::new();
+        let mut slot = 10;
+        for _ in 0..nstates {
+            if r.chance(1, 4) { toks.push("-".into()); continue; }
+            let mut a = gen_timeline(r, shape, true, true);
+            let mut seen: Vec<f32> = Vec::new();
+            a.kfs.retain(|k| if seen.contains(&k.pos) { false } else { seen.push(k.pos); true });
+            writeln!(out, "{}", a.line(slot)).unwrap();
+            toks.push(slot.to_string());
+            slot += 1;
+        }
+        let s0 = r.below(nstates as u64) as usize;
+        let v0 = vals_line(r, shape, true);
+        writeln!(out, "anim 0 {} {} {} {} {}", shape, nstates, s0, v0.join(" "), toks.join(" ")).unwrap();
+        writeln!(out, "anim 1 {} {} {} {} {}", shape, nstates, s0, v0.join(" "), toks.join(" ")).unwrap();
+        let parts_pool = [0.0f32, 0.0625, 0.125, 0.25, 0.5, 1.0, 2.0, 0.375, 4.0];
+        for _ in 0..(3 + r.below(5)) {
+            let k = 1 + r.below(6) as usize;
+            let parts: Vec<f32> = (0..k).map(|_| r.pick(&parts_pool)).collect();
+            let total: f32 = parts.iter().sum();
+            for p in &parts { writeln!(out, "adv 0 {}", b(*p)).unwrap(); }
+            writeln!(out, "adv 1 {}", b(total)).unwrap();
+            writeln!(out, "# eq C06 1 2").unwrap();
+            if r.chance(2, 3) {
+                let s = r.below(nstates as u64) as usize;
+                writeln!(out, "set 0 {}", s).unwrap();
+                writeln!(out, "set 1 {}", s).unwrap();
+                writeln!(out, "# eq C06 1 2").unwrap();
+            }
+        }
+    }
+}
+
 pub fn generate(suite: &str, seed: u64, n: usize, out: &mut dyn Write) {
     let mut r = Rng(seed ^ suite.bytes().fold(0u64, |h, c| h.wrapping_mul(131).wrapping_add(c as u64)));
     match suite {
@@ -738,6 +780,7 @@ pub fn generate(suite: &str, seed: u64, n: usize, out: &mut dyn Write) {
         "tl" => gen_tl(&mut r, n, out),
         "merged" => gen_merged(&mut r, n, out),
         "anim" => gen_anim(&mut r, n, out),
+        "anim6" => gen_anim6(&mut r, n, out),
         _ => {
             eprintln!("unknown suite {}", suite);
             std::process::exit(2);
